@@ -17,63 +17,17 @@
   quiescent state) with the completeness oracle.
 -/
 import LLFreeV.Proofs.SortedBuffer
-import LLFreeV.Model.Upper
+import LLFreeV.Proofs.UpperComplete
 namespace LLFree.C10
 open LLFree
 
 /-- the natural-number value of the scan index when nothing wraps -/
 theorem searchIdx_nat (start n i : Nat) (hs : start < n) (hi : i < n) (h64 : start + n + i < 2 ^ 64) :
-    searchIdx start n i = (if i % 2 = 0 then start + n + i / 2 else start + n - (i + 1) / 2) % n := by
-  unfold searchIdx
-  by_cases he : i % 2 = 0
-  · simp only [he, if_true]
-    have e : (((start + n : Nat) : Int) + ((i / 2 : Nat) : Int)) = ((start + n + i / 2 : Nat) : Int) := by omega
-    rw [e]
-    have hmod : ((start + n + i / 2 : Nat) : Int) % (2 ^ 64 : Int) = ((start + n + i / 2 : Nat) : Int) := by
-      apply Int.emod_eq_of_lt <;> omega
-    rw [hmod, Int.toNat_natCast]
-  · simp only [he, if_false]
-    have e : (((start + n : Nat) : Int) + -(((i + 1) / 2 : Nat) : Int)) = ((start + n - (i + 1) / 2 : Nat) : Int) := by omega
-    rw [e]
-    have hmod : ((start + n - (i + 1) / 2 : Nat) : Int) % (2 ^ 64 : Int) = ((start + n - (i + 1) / 2 : Nat) : Int) := by
-      apply Int.emod_eq_of_lt <;> omega
-    rw [hmod, Int.toNat_natCast]
+    searchIdx start n i = (if i % 2 = 0 then start + n + i / 2 else start + n - (i + 1) / 2) % n :=
+  LLFree.searchIdx_nat start n i hs hi h64
 
 theorem search_visits_all (start n : Nat) (hs : start < n) (h64 : start + 2 * n < 2 ^ 64) (j : Nat) (hj : j < n) :
-    ∃ i, i < n ∧ searchIdx start n i = j := by
-  -- forward distance from start to j
-  by_cases hfw : start ≤ j
-  · -- d = j - start
-    by_cases hd : 2 * (j - start) < n
-    · refine ⟨2 * (j - start), hd, ?_⟩
-      rw [searchIdx_nat start n _ hs hd (by omega)]
-      have h1 : 2 * (j - start) % 2 = 0 := by omega
-      have h2 : 2 * (j - start) / 2 = j - start := by omega
-      simp only [h1, if_true, h2]
-      rw [show start + n + (j - start) = j + n by omega, Nat.add_mod_right, Nat.mod_eq_of_lt hj]
-    · -- go backwards by b = n - (j - start)
-      have hb : 2 * (n - (j - start)) - 1 < n := by omega
-      refine ⟨2 * (n - (j - start)) - 1, hb, ?_⟩
-      rw [searchIdx_nat start n _ hs hb (by omega)]
-      have h1 : ¬ (2 * (n - (j - start)) - 1) % 2 = 0 := by omega
-      have h2 : (2 * (n - (j - start)) - 1 + 1) / 2 = n - (j - start) := by omega
-      simp only [h1, if_false, h2]
-      rw [show start + n - (n - (j - start)) = j by omega, Nat.mod_eq_of_lt hj]
-  · -- j < start: backward distance b = start - j, forward distance n - b
-    by_cases hd : 2 * (start - j) - 1 < n ∧ 2 * (start - j) ≤ n
-    · refine ⟨2 * (start - j) - 1, hd.1, ?_⟩
-      rw [searchIdx_nat start n _ hs hd.1 (by omega)]
-      have h1 : ¬ (2 * (start - j) - 1) % 2 = 0 := by omega
-      have h2 : (2 * (start - j) - 1 + 1) / 2 = start - j := by omega
-      simp only [h1, if_false, h2]
-      rw [show start + n - (start - j) = j + n by omega, Nat.add_mod_right, Nat.mod_eq_of_lt hj]
-    · have hf : 2 * (n - (start - j)) < n := by omega
-      refine ⟨2 * (n - (start - j)), hf, ?_⟩
-      rw [searchIdx_nat start n _ hs hf (by omega)]
-      have h1 : 2 * (n - (start - j)) % 2 = 0 := by omega
-      have h2 : 2 * (n - (start - j)) / 2 = n - (start - j) := by omega
-      simp only [h1, if_true, h2]
-      rw [show start + n + (n - (start - j)) = j + n + n by omega, Nat.add_mod_right, Nat.add_mod_right, Nat.mod_eq_of_lt hj]
+    ∃ i, i < n ∧ searchIdx start n i = j := LLFree.search_visits_all start n hs h64 j hj
 
 /-- after an insertion the candidate buffer (capacity ≥ 1) is not empty -/
 theorem best_nonempty {τ : Type} (le : τ → τ → Bool) (n : Nat) (hn : 0 < n) (buf : List τ) (v : τ)
@@ -120,6 +74,39 @@ theorem steal_takes (t e : Tree) (cls n : Nat) (policy : PolicyFn) (h : t.steal 
     · injection h with h; subst h; exact ⟨rfl, hc.1, rfl⟩
     · cases h
   · cases h
+
+/-- **`drain`** never panics, keeps the invariant and the allocation state; afterwards no slot
+    holds a reservation and no tree is reserved (sequential, every reachable state). -/
+theorem drain_clears (c : Cfg) (ok : CfgOk c) (H : Nat → Prop) (m : Mem) (inv : UpperInv0 c H m) :
+    Runs m (drain c) (fun _ m' => UpperInv0 c H m' ∧ SameAlloc m m' ∧ (∀ s, SlotAbsent m' s) ∧
+      ∀ (i : Nat) (t : Tree), m'.trees[i]? = some t → t.reserved = false) := drain_spec ok inv
+
+/-- **After a drain a base-order allocation fails only if nothing suitable is free**: in a
+    drained state, if some tree is unreserved with a positive counter, `get` succeeds (with a
+    block that was free). For a tree that is not hidden (offline) the counter is exactly its
+    number of free frames (`UpperInv.counterEq`). -/
+theorem get_after_drain_complete (c : Cfg) (ok : CfgOk c) (H : Nat → Prop) (m : Mem) (inv : UpperInv0 c H m)
+    (habs : ∀ s, SlotAbsent m s) (r : Request) (ho : r.order = 0) (hcls : r.cls < 8) (hloc : r.locOk c)
+    (hv : C08.ArgsValid c 0 r) (j : Nat) (hj : j < c.ntrees) (hu : Usable m j) :
+    Runs m (get c none r) (fun res m' => (∃ x, res = .ok x) ∧ UpperInv0 c H m' ∧ GetOutcome c m 0 none res m') :=
+  get_base_complete ok inv habs r ho hcls hloc hv j hj hu
+
+/-- the counter of a tree outside the hidden set with a free frame is positive when no slot
+    caches its frames: the premise `Usable` of the completeness theorem is "a frame outside
+    offline trees is free" -/
+theorem usable_of_free (c : Cfg) (H : Nat → Prop) (m : Mem) (inv : UpperInv0 c H m) (j : Nat) (t : Tree)
+    (ht : m.trees[j]? = some t) (hr : t.reserved = false) (hnh : ¬ H j) (hfree : 1 ≤ m.freeInTree c.geom j) : Usable m j := by
+  refine ⟨t, ht, hr, ?_⟩
+  have h1 := inv.counterEq j t ht hnh
+  have h2 := inv.slotFree_unreserved j t ht hr
+  omega
+
+/-- a targeted allocation in a drained allocator: see C02 (`get` with a target succeeds only on
+    a free block and returns exactly it). -/
+theorem targeted_exact (c : Cfg) (ok : CfgOk c) (H : Nat → Prop) (m : Mem) (inv : UpperInv0 c H m) (f : Nat) (r : Request)
+    (hcls : r.cls < 8) (hloc : r.locOk c) (hv : C08.ArgsValid c f r) :
+    Runs m (get c (some f) r) (fun res m' => UpperInv0 c H m' ∧ GetOutcome c m r.order (some f) res m') :=
+  upper_get_spec ok inv (some f) r hcls hloc hv
 
 /-- Non-vacuity: with 5 trees and start 3 the scan order is 3, 2, 4, 1, 0. -/
 example : (List.range 5).map (searchIdx 3 5) = [3, 2, 4, 1, 0] := by decide
